@@ -66,7 +66,7 @@ pub fn structures(tier: &str, seed: u64) -> Vec<Structure> {
 /// Operation menu for one structure (DESIGN 4.4). Admin/config operations are in `admin_menu`.
 pub fn menu(s: &Structure) -> Vec<Op> {
     let mut v = vec![];
-    let stake = |sender: P, mint_to: MintTo, flag: Option<bool>, expected: bool, funds: Funds, faults: Vec<bool>| Op::Stake { sender, mint_to, flag, expected, funds, faults };
+    let stake = |sender: P, mint_to: MintTo, flag: Option<bool>, expected: bool, funds: Funds, faults: Vec<u8>| Op::Stake { sender, mint_to, flag, expected, funds, faults };
     v.push(stake(P::U(0), MintTo::None, None, false, Funds::Native, vec![]));
     v.push(stake(P::U(0), MintTo::Proto, None, true, Funds::Native, vec![]));
     v.push(stake(P::U(0), MintTo::Native, None, false, Funds::Native, vec![]));
@@ -76,8 +76,11 @@ pub fn menu(s: &Structure) -> Vec<Op> {
     v.push(stake(P::U(0), MintTo::Invalid, None, false, Funds::Native, vec![]));
     v.push(stake(P::U(0), MintTo::None, None, false, Funds::Other, vec![]));
     v.push(stake(P::U(0), MintTo::None, None, false, Funds::None, vec![]));
-    v.push(stake(P::U(0), MintTo::None, None, false, Funds::Native, vec![true]));
-    v.push(stake(P::U(0), MintTo::Native, None, false, Funds::Native, vec![false, true]));
+    v.push(stake(P::U(0), MintTo::None, None, false, Funds::Native, vec![1]));
+    v.push(stake(P::U(0), MintTo::Native, None, false, Funds::Native, vec![0, 1]));
+    // accepted transfers whose reply carries no response data (the sequence number cannot be learnt)
+    v.push(stake(P::U(0), MintTo::None, None, false, Funds::Native, vec![2]));
+    v.push(stake(P::U(0), MintTo::Native, None, false, Funds::Native, vec![0, 2]));
     if s.cfg.same_prefix {
         v.push(stake(P::U(0), MintTo::Native, Some(true), false, Funds::Native, vec![]));
         v.push(stake(P::U(0), MintTo::Native, Some(false), false, Funds::Native, vec![]));
@@ -110,14 +113,15 @@ pub fn menu(s: &Structure) -> Vec<Op> {
     v.push(Op::ReceiveUnstaked { sender: P::HookStaker, batch: 1, funds: Funds::Lst });
     v.push(Op::ReceiveUnstaked { sender: P::HookStaker, batch: 1, funds: Funds::None });
     v.push(Op::Rewards { sender: P::HookCollector, funds: Funds::Native, faults: vec![] });
-    v.push(Op::Rewards { sender: P::HookCollector, funds: Funds::Native, faults: vec![true] });
+    v.push(Op::Rewards { sender: P::HookCollector, funds: Funds::Native, faults: vec![1] });
+    v.push(Op::Rewards { sender: P::HookCollector, funds: Funds::Native, faults: vec![2] });
     v.push(Op::Rewards { sender: P::HookStaker, funds: Funds::Native, faults: vec![] });
     v.push(Op::Rewards { sender: P::U(0), funds: Funds::Native, faults: vec![] });
     v.push(Op::Rewards { sender: P::Admin, funds: Funds::Native, faults: vec![] });
     v.push(Op::Rewards { sender: P::HookCollector, funds: Funds::Lst, faults: vec![] });
     v.push(Op::Rewards { sender: P::HookCollector, funds: Funds::None, faults: vec![] });
     // recoveries
-    let rec = |sender: P, paginated: Option<bool>, selected: Option<Vec<u64>>, receiver: Option<&'static str>, faults: Vec<bool>| Op::Recover { sender, paginated, selected, receiver, faults };
+    let rec = |sender: P, paginated: Option<bool>, selected: Option<Vec<u64>>, receiver: Option<&'static str>, faults: Vec<u8>| Op::Recover { sender, paginated, selected, receiver, faults };
     v.push(rec(P::U(0), None, None, None, vec![]));
     v.push(rec(P::U(0), Some(true), None, None, vec![]));
     v.push(rec(P::U(0), Some(false), None, Some("staker"), vec![]));
@@ -125,7 +129,8 @@ pub fn menu(s: &Structure) -> Vec<Op> {
     v.push(rec(P::U(0), Some(true), None, Some("n2"), vec![]));
     v.push(rec(P::U(0), None, None, Some("proto"), vec![]));
     v.push(rec(P::U(0), None, None, Some("garbage"), vec![]));
-    v.push(rec(P::U(0), None, None, None, vec![true]));
+    v.push(rec(P::U(0), None, None, None, vec![1]));
+    v.push(rec(P::U(0), None, None, None, vec![2]));
     v.push(rec(P::Admin, None, None, None, vec![]));
     let refundable_staker: Vec<u64> = s.packets.iter().filter(|p| p.recv == scen::PRecv::Staker && p.status != PacketLifecycleStatus::Sent && p.denom == scen::PDenom::Native).map(|p| p.seq).collect();
     if let Some(first) = s.packets.first() {
